@@ -66,7 +66,7 @@ func minimizeMain(t *testing.T) {
 		candidates++
 		vsimProgress.Add(1)
 		cryptotest.SetGlobalRandom(t, rf.Seed)
-		return runOne(t, sc, runOpts{seed: rf.Seed, prop: rf.Scenario, replay: tapes, keepTapes: true, params: rf.Params})
+		return execRun(t, rf.Scenario, sc, runOpts{seed: rf.Seed, prop: rf.Scenario, replay: tapes, keepTapes: true, params: rf.Params})
 	}
 	same := func(r *runResult) bool {
 		return r.Violation != nil && r.Violation.Prop == rf.Property && r.Violation.Class == rf.Class && r.Aborted == ""
@@ -141,7 +141,7 @@ func minimizeMain(t *testing.T) {
 		os.Exit(2)
 	}
 	cryptotest.SetGlobalRandom(t, rf.Seed)
-	verbose := runOne(t, sc, runOpts{seed: rf.Seed, prop: rf.Scenario, replay: cur, verbose: true, params: rf.Params})
+	verbose := execRun(t, rf.Scenario, sc, runOpts{seed: rf.Seed, prop: rf.Scenario, replay: cur, verbose: true, params: rf.Params})
 	out := rf
 	out.Tapes = trimTapes(cur)
 	out.Hash = final.Hash
